@@ -13,7 +13,7 @@ import (
 
 func init() {
 	register("C09", checkC09)
-	notDecided["C09"] = "the tree for concrete documents; known and NOT decided (no sound structural rule): the XML declaration is kept as a processing-instruction node, CDATA/adjacent character data are not merged into one text node, xmlns=\"\" yields an empty namespace node, top-level whitespace becomes text children of the root; namespace-node ownership/inheritance in the store is decided under C10 (known finding K4)."
+	notDecided["C09"] = "the tree for concrete documents; that encoding/xml tokenises every well-formed document as the rules assume (entity expansion, CDATA, namespace translation of names are its contract); non-white-space character data outside the document element (only in documents that are not well-formed; the existing suite expects it to be kept); the order of an element's namespace nodes among themselves."
 }
 
 // implementsNode reports whether concrete type t implements the node interface named iface.
@@ -719,6 +719,7 @@ func checkC09(w *World) {
 	w.namespaceUndeclared(P)
 	// namespace nodes belong to their element: ownership rules of the store
 	w.include(P, "C10", "R10.2", "R10.3", "R10.5", "R10.8", "R10.9")
+	w.include(P, "C17", "R17.5") // the adapters of package parser share no growing package-level state
 }
 
 // replayOrder: the decoder call is guarded by both pending lists being drained.
